@@ -38,13 +38,14 @@ def run_stream(res, key_prefix, cases, rng, label):
         return
     order = list(range(len(cases)))
     rng.shuffle(order)
-    for mode in ('one_thread', 'two_threads'):
+    import copy
+    for mode in ('one_thread', 'two_threads', 'checkpointed'):
         parser = ev.new_parser()
         ts = 5000
         expected_by_first_ts = {}
         items = []
-        if mode == 'one_thread':
-            for i in order:
+        if mode in ('one_thread', 'checkpointed'):
+            for i in order[:len(order) if mode == 'one_thread' else 300]:
                 seq, texts, desc = cases[i]
                 items.append([(6, a) for a in seq])
         else:
@@ -64,6 +65,25 @@ def run_stream(res, key_prefix, cases, rng, label):
             for gi, group in enumerate(items):
                 events = H.materialize(group, t0=ts)
                 ts = max(e.timestamp for e in events) + 100
+                if mode == 'checkpointed' and gi % 2 == 0 and len(events) > 1:
+                    # a checkpoint of the decode (copy.deepcopy of the parser) taken in the middle of the window; the copy
+                    # is resumed with the rest of the records BEFORE the original is: two independent objects each
+                    # deliver the window
+                    cut = rng.randrange(1, len(events))
+                    for e in events[:cut]:
+                        t = parser.feed(e)
+                        if t is not None:
+                            got.setdefault((gi, t.ktraces[0].tid), []).append(str(t))
+                    try:
+                        clone = copy.deepcopy(parser)
+                    except Exception as x:
+                        res.notes['parser_checkpoints'] = f'copy.deepcopy(parser) raises {type(x).__name__}: not exercised'
+                        clone = None
+                    if clone is not None:
+                        for e in events[cut:]:
+                            clone.feed(e)
+                        res.count('parser_checkpoints_resumed')
+                    events = events[cut:]
                 for e in events:
                     t = parser.feed(e)
                     if t is not None:
@@ -75,8 +95,8 @@ def run_stream(res, key_prefix, cases, rng, label):
                           f'parser raised {x!r} at {core.short_tb(x)}')
             return
         res.count(f'stream_windows_{mode}', len(order))
-        if mode == 'one_thread':
-            pairs = [((gi, 6), cases[i]) for gi, i in enumerate(order)]
+        if mode in ('one_thread', 'checkpointed'):
+            pairs = [((gi, 6), cases[i]) for gi, i in enumerate(order[:len(items)])]
         else:
             pairs = []
             for gi, (a, b) in enumerate(zip(order[0::2], order[1::2])):
@@ -88,6 +108,25 @@ def run_stream(res, key_prefix, cases, rng, label):
                               f'{got.get(k, [])} inside a long stream on one parser, {texts} on a fresh parser',
                               {'description': desc, 'mode': mode})
                 return
+
+
+def front_end(rng):
+    """A front-end object whose presentation settings (time base, wall clock, zone, columns, colour) are set at random -
+    also to extreme values: they say how a line is printed, never what is decoded."""
+    from datetime import timezone, timedelta
+    from pykdebugparser.pykdebugparser import PyKdebugParser
+    p = PyKdebugParser()
+    if rng.random() < 0.6:
+        p.numer, p.denom = rng.choice(((125, 3), (1, 1), (1, 1 << 31), ((1 << 32) - 1, 1), (1 << 40, 3), (3, 125)))
+        p.mach_absolute_time = rng.choice((0, 1, 0x100000000, 1 << 62))
+        p.usecs_since_epoch = rng.choice((0, 1600000000 * 10 ** 6))
+        if rng.random() < 0.7:
+            p.timezone = timezone(timedelta(minutes=rng.choice((0, -450, 330, 840))))
+    p.color = rng.random() < 0.5
+    for sw in ('show_timestamp', 'show_tid', 'show_process'):
+        if hasattr(p, sw):
+            setattr(p, sw, rng.random() < 0.5)
+    return p
 
 
 def run_files(res, key_prefix, cases, rng, label, limit=600):
@@ -107,14 +146,15 @@ def run_files(res, key_prefix, cases, rng, label, limit=600):
         evs = H.materialize([(6, a) for a in seq], t0=ts, step=0 if gi % 2 else 7)
         spans.append((min(e.timestamp for e in evs), max(e.timestamp for e in evs)))
         events += evs
-        ts = spans[-1][1] + 100          # (a jittered clock stamps records up to 30 ticks early)
+        # (a jittered clock stamps records up to 30 ticks early); now and then the capture is silent for hours
+        ts = spans[-1][1] + (100 if gi % 7 else rng.choice((10 ** 11, 10 ** 13, 1 << 40)))
     records = gen.events_to_records(events)
     entries = [(6, 100, b'proc0', b'')]
     files = {'v2': wire.v2_file(entries, 8, records),
              'v3': wire.V3Spec(entries=entries, chunks=gen.split_chunks(rng, records, rng.choice((1, 2, 5, 9)))).build()}
     for kind, data in files.items():
         try:
-            traces = list(PyKdebugParser().traces(io.BytesIO(data)))
+            traces = list(front_end(rng).traces(wire.stream(data)))
         except Exception as x:
             res.violation(f'{key_prefix}-file-raises-{core.exc_name(x)}', f'{label}: {len(order)} windows in a {kind} dump: '
                           f'{x!r} at {core.short_tb(x)}', {'file': data})
@@ -123,7 +163,7 @@ def run_files(res, key_prefix, cases, rng, label, limit=600):
         # their memory is reused while the parse goes on) - what is printed must not depend on what the caller keeps
         lazy = []
         try:
-            for t in PyKdebugParser().traces(io.BytesIO(data)):
+            for t in front_end(rng).traces(wire.stream(data)):
                 lazy.append(str(t))
                 del t
         except Exception as x:
@@ -164,7 +204,7 @@ def traces_via_file(events, kind, rng):
         data = wire.v2_file(entries, 8, records)
     else:
         data = wire.V3Spec(entries=entries, chunks=gen.split_chunks(rng, records, rng.choice((1, 2, 3)))).build()
-    return data, list(PyKdebugParser().traces(io.BytesIO(data)))
+    return data, list(PyKdebugParser().traces(wire.stream(data)))
 
 
 def run_stretched(res, key_prefix, cases, rng, label, rungs):
@@ -280,7 +320,7 @@ def run_front_end_sequences(res, key_prefix, cases, rng, label, n=40):
                 kw = {'trace_codes': table} if use_table else {}
                 try:
                     fresh = [str(t) for t in PyKdebugParser().traces(io.BytesIO(data), **kw)]
-                    got = [str(t) for t in shared.traces(io.BytesIO(data), **kw)]
+                    got = [str(t) for t in shared.traces(wire.stream(data), **kw)]
                 except Exception as x:
                     res.violation(f'{key_prefix}-front-end-sequence-raises-{core.exc_name(x)}', f'{label}: {desc}, {which}: '
                                   f'{x!r} at {core.short_tb(x)}', {'description': desc, 'file': data})
@@ -314,7 +354,8 @@ def run_relabelled(res, key_prefix, cases, rng, label, n=200):
         events = H.materialize([(6, a) for a in seq], t0=5000)
         try:
             events2, table = ev.relabel(events, rng)
-            parser = ev.new_parser(codes=table)
+            import types
+            parser = ev.new_parser(codes=table if rng.random() < 0.5 else types.MappingProxyType(table))
             got = []
             for e in events2:
                 t = parser.feed(e)
